@@ -62,12 +62,22 @@ func (k *scoreKit) level(name string) *facts.Level {
 // classifies them by shape: round-to-k-decimals (math.Round(x*10^k)/10^k) or
 // the v3 round-up helper.
 func (k *scoreKit) classifyRounders(rule string) {
-	sc := k.pkg.Scope()
-	for _, n := range sc.Names() {
-		fn, ok := sc.Lookup(n).(*types.Func)
-		if !ok {
-			continue
+	// the package's own helpers first, then those of the module's internal packages it imports (shared arithmetic)
+	var cands []*types.Func
+	scopes := []*types.Scope{k.pkg.Scope()}
+	for _, imp := range k.pkg.Imports() {
+		if load.IsInternal(imp.Path()) {
+			scopes = append(scopes, imp.Scope())
 		}
+	}
+	for _, sc := range scopes {
+		for _, n := range sc.Names() {
+			if fn, ok := sc.Lookup(n).(*types.Func); ok {
+				cands = append(cands, fn)
+			}
+		}
+	}
+	for _, fn := range cands {
 		sig := fn.Type().(*types.Signature)
 		if sig.Recv() != nil || sig.Params().Len() != 1 || sig.Results().Len() != 1 {
 			continue
